@@ -266,7 +266,7 @@ def explanation(prop, level, n_obl, n_ok, known_lines, undecided, standins):
 
 
 def trusted_base(classes):
-    tb = ["z3 5.1 (python API) as the deciding back end; /usr/bin/z3 4.8.12 on `unknown`",
+    tb = ["z3 5.1 (python API; QF_AUFLIA configuration first, general configuration on `unknown`) as the deciding back end",
           "eqlvc front end: Python subset semantics of DESIGN.md 2.2 / 11",
           "the interface contract I is assumed for every callee (each override is proved against it separately)"]
     for c in classes:
